@@ -78,7 +78,7 @@ pub struct GenStats {
 pub fn profile_grammars(prof: &Profile, seed: u64, count: usize, wave: u64, stats: &mut GenStats) -> Vec<(Grammar, u64)> {
     let mut out = vec![];
     let mut idx = wave * 1_000_000;
-    let nbytes = 600;
+    let nbytes = if prof.max_depth > 5 { 1500 } else { 600 };
     let mut seen = std::collections::BTreeSet::new();
     while out.len() < count && stats.attempts < count * 50 + 100 {
         let bytes = rng_bytes(seed, prof.name, idx, nbytes);
@@ -433,18 +433,27 @@ fn to_ctx(g: &Grammar) -> Grammar {
     g
 }
 
+/// profiles grow in the thorough tier (more rules, deeper expressions); odd waves only, so both sizes are explored
+fn prof_for(name: &str, tier: &str, wave: u64) -> Option<Profile> {
+    let mut p = Profile::by_name(name)?;
+    if tier == "thorough" && wave % 2 == 1 {
+        p.max_rules += 4;
+        p.max_depth += 2;
+    }
+    Some(p)
+}
+
 pub fn make(plan: &str, seed: u64, count: usize, tier: &str, wave: u64) -> (Vec<GrammarSpec>, serde_json::Value) {
     let mut stats = GenStats { attempts: 0, rejected: BTreeMap::new() };
     let mut specs = vec![];
-    let _ = tier;
     match plan {
         "leftrec" => specs = leftrec_specs(seed, count, wave, "g", &mut stats),
         "mixed" | "sched" | "errors" => {
-            let prof = Profile::by_name(match plan {
+            let prof = prof_for(match plan {
                 "sched" => "memo",
                 "errors" => "core",
                 _ => "mixed",
-            })
+            }, tier, wave)
             .unwrap();
             let nl = if plan == "errors" { count / 4 } else { count / 5 };
             for (k, (g, _)) in profile_grammars(&prof, seed, count - nl, wave, &mut stats).into_iter().enumerate() {
@@ -454,10 +463,10 @@ pub fn make(plan: &str, seed: u64, count: usize, tier: &str, wave: u64) -> (Vec<
         }
         "memo" => {
             let groups = (count / 4).max(1);
-            let mut base = profile_grammars(&Profile::by_name("memo").unwrap(), seed, groups - groups / 3, wave, &mut stats);
+            let mut base = profile_grammars(&prof_for("memo", tier, wave).unwrap(), seed, groups - groups / 3, wave, &mut stats);
             let nplain = base.len();
             // a third of the groups mixes skipping / non-skipping callers of memoized rules
-            base.extend(profile_grammars(&Profile::by_name("memows").unwrap(), seed, groups / 3, wave, &mut stats));
+            base.extend(profile_grammars(&prof_for("memows", tier, wave).unwrap(), seed, groups / 3, wave, &mut stats));
             for (k, (g, idx)) in base.into_iter().enumerate() {
                 let plan = if k >= nplain { "memows" } else { "memo" };
                 let bytes = rng_bytes(seed, "memo-mask", idx, 64);
@@ -477,7 +486,7 @@ pub fn make(plan: &str, seed: u64, count: usize, tier: &str, wave: u64) -> (Vec<
             }
         }
         "probes" => {
-            let prof = Profile::by_name("memo").unwrap();
+            let prof = prof_for("memo", tier, wave).unwrap();
             for (k, (g, idx)) in profile_grammars(&prof, seed, count, wave, &mut stats).into_iter().enumerate() {
                 // half of the grammars: all rules memoized (global bound applies)
                 let all = idx % 2 == 0;
@@ -488,7 +497,7 @@ pub fn make(plan: &str, seed: u64, count: usize, tier: &str, wave: u64) -> (Vec<
             }
         }
         "include" => {
-            let prof = Profile::by_name("include").unwrap();
+            let prof = prof_for("include", tier, wave).unwrap();
             let want = (count / 2).max(1);
             let mut k = 0;
             let mut wv = wave * 16;
@@ -523,7 +532,7 @@ pub fn make(plan: &str, seed: u64, count: usize, tier: &str, wave: u64) -> (Vec<
             let want = (count / 2).max(1);
             let mut k = 0;
             for pname in ["fields", "mixed", "memo"] {
-                let prof = Profile::by_name(pname).unwrap();
+                let prof = prof_for(pname, tier, wave).unwrap();
                 for (g, _) in profile_grammars(&prof, seed, want / 3 + 1, wave, &mut stats) {
                     if k >= want {
                         break;
@@ -543,7 +552,7 @@ pub fn make(plan: &str, seed: u64, count: usize, tier: &str, wave: u64) -> (Vec<
             }
         }
         "hooks" => {
-            let mut prof = Profile::by_name("hooks").unwrap();
+            let mut prof = prof_for("hooks", tier, wave).unwrap();
             for (k, (g, _)) in profile_grammars(&prof, seed, count, wave, &mut stats).into_iter().enumerate() {
                 let ctx = k % 2 == 1;
                 let mut s = spec(format!("g{:04}", k), plan, if ctx { to_ctx(&g) } else { g });
@@ -554,7 +563,7 @@ pub fn make(plan: &str, seed: u64, count: usize, tier: &str, wave: u64) -> (Vec<
             prof.user_ctx = false;
         }
         "types" => {
-            let prof = Profile::by_name("types").unwrap();
+            let prof = prof_for("types", tier, wave).unwrap();
             let derive_sets: [&[&str]; 4] = [&["Debug", "Clone"], &["Debug", "Clone", "PartialEq", "Eq"], &["Clone"], &[]];
             for (k, (g, _)) in profile_grammars(&prof, seed, count, wave, &mut stats).into_iter().enumerate() {
                 let ds = derive_sets[k % 4];
@@ -585,7 +594,7 @@ pub fn make(plan: &str, seed: u64, count: usize, tier: &str, wave: u64) -> (Vec<
             }
         }
         _ => {
-            let prof = Profile::by_name(plan).unwrap_or_else(|| panic!("unknown plan {plan}"));
+            let prof = prof_for(plan, tier, wave).unwrap_or_else(|| panic!("unknown plan {plan}"));
             for (k, (g, _idx)) in profile_grammars(&prof, seed, count, wave, &mut stats).into_iter().enumerate() {
                 specs.push(spec(format!("g{:04}", k), plan, g));
             }
